@@ -24,6 +24,10 @@
 (*   fwd       a forward reference: valid code, forces a second pass       *)
 (*   undef     a reference to a symbol that is never defined: taken for a  *)
 (*             forward reference in pass 1, an error in pass 2             *)
+(*   tjmp      TransientJumpErr: a short branch that is out of range only  *)
+(*             in pass 2 (its body shrinks in that pass): the error is     *)
+(*             written, and discounted again iff -Y  (JumpStep)            *)
+(*   pjmp      a short branch that is out of range for good                *)
 (*   burstE n, burstW n, burstU n   REPT n of an err / warn / uwarn line   *)
 (*   expect, endexpect      EXPECT 1200 ... ENDEXPECT                      *)
 (*   flag f    an ON/OFF style instruction setting mode flag f, or the     *)
@@ -56,8 +60,12 @@
 (*                 Nothing reads them there (Residue, Driver_Trace).       *)
 (*  LastPassOnly   counters are per pass: a warning of a two-pass file is  *)
 (*                 written twice and summarised once.                      *)
-(* Not modelled: -Y (ThrowErrors subtracts already printed jump errors),   *)
-(* I/O errors after the pass loop, +G (kept as a parameter, fixed TRUE).   *)
+(*  JmpErrorsSurvive  as originally pinned the JmpErrors counter was never  *)
+(*                 cleared per pass / file ("jmperrors" \in Leaky): under  *)
+(*                 -Y a later file subtracts errors of an earlier one      *)
+(*                 (proposed_fixes/C18-jmperrors-reset.diff).              *)
+(* Not modelled: I/O errors after the pass loop, +G (kept as a parameter,  *)
+(* fixed TRUE).                                                            *)
 (***************************************************************************)
 EXTENDS Diag
 
@@ -65,12 +73,12 @@ CONSTANT Leaky          \* set of mode flags that survive InitPass
 
 ---------------------------------------------------------------------------
 \* option partition (C17).  An option record has all of these fields.
-CodeAffecting == {"werror", "suppw", "codeout", "maxerr"}    \* decide whether / which code file exists
+CodeAffecting == {"werror", "suppw", "codeout", "maxerr", "throw"}    \* decide whether / which code file exists
 ReportOnly    == {"q", "x", "n", "gnu", "E", "L"}            \* change where / how things are reported
 \* maxerr never changes the bytes of a code file that exists, but it turns status 2 into 3; it is kept on the
 \* code-affecting side because C17 does not list it as report-only.
 
-CodeView(o) == [werror |-> o.werror, suppw |-> o.suppw, codeout |-> o.codeout, maxerr |-> o.maxerr]
+CodeView(o) == [werror |-> o.werror, suppw |-> o.suppw, codeout |-> o.codeout, maxerr |-> o.maxerr, throw |-> o.throw]
 
 \* where diagnostics go / whether the summary is printed: the only things report options decide in this model
 Channel(o) == o.E                  \* "stderr" (default !2) | "stdout" (-E !1) | "file" (-E name) | "log" (-E)
@@ -78,10 +86,23 @@ SummaryShown(o) == ~o.q
 
 ---------------------------------------------------------------------------
 \* file-local assembler state
+\*  pos      number of the source line being processed
+\*  prevErr  positions of the jump statements that raised their error in the PREVIOUS pass of this file (they emitted no
+\*           code then) - the only thing of an earlier pass this model remembers; in the code it is the symbol table
+\*  nowErr   the same for the current pass
 InitCore == [ifasm |-> TRUE, ifd |-> 0, rec |-> "none", svd |-> 0, std |-> 0, sed |-> 0, phd |-> 0,
-             flags |-> {}, code |-> <<>>, repass |-> FALSE]
+             flags |-> {}, code |-> <<>>, repass |-> FALSE, pos |-> 0, prevErr |-> {}, nowErr |-> {}]
 
-Fresh(carry) == [d |-> PassInit, c |-> [InitCore EXCEPT !.flags = carry]]
+\* a stale JmpErrors counter travels in the carry set as a token (only if "jmperrors" \in Leaky)
+JmpTokens == {"jmperr1", "jmperr2", "jmperr3"}
+JmpOf(carry) == IF "jmperr3" \in carry THEN 3 ELSE IF "jmperr2" \in carry THEN 2 ELSE IF "jmperr1" \in carry THEN 1 ELSE 0
+JmpTok(n) == IF "jmperrors" \notin Leaky \/ n = 0 THEN {} ELSE IF n = 1 THEN {"jmperr1"} ELSE IF n = 2 THEN {"jmperr2"} ELSE {"jmperr3"}
+\* what a finished pass hands to the next pass / file beyond the carry it got
+Handover(carry, p) == ((carry \ JmpTokens) \cup (p.c.flags \cap Leaky)) \cup JmpTok(p.d.jmp)
+
+FreshP(carry, prevErr) == [d |-> [PassInit EXCEPT !.jmp = JmpOf(carry)],
+                           c |-> [InitCore EXCEPT !.flags = carry \ JmpTokens, !.prevErr = prevErr]]
+Fresh(carry) == FreshP(carry, {})
 
 Opened(c) == c.ifd > 0 \/ c.rec # "none" \/ c.svd > 0 \/ c.std > 0 \/ c.sed > 0 \/ c.phd > 0
 
@@ -100,8 +121,29 @@ Defs == {"macro", "func", "sym"}
 CpuScoped == {"switchocc", "pageocc", "shiftocc", "onoff"}
 
 \* one source line in pass `pass`
-LineStep(o, st, ln, pass) ==
+\* A short branch over a body, at source position c.pos (6502 `bne`, 68000 `beq.s` ...).
+\*   tjmp  TransientJumpErr: the body shrinks in pass 2 (operands defined further down become known), so the branch is
+\*         out of range only in pass 2, where it still sees the label value of pass 1
+\*   pjmp  the branch is out of range for good
+\* pass 1: forward reference (Repass).  Later passes: the error is raised unless a repass has already been requested
+\* (then the label value is questionable and the statement is assembled without complaint); a statement that raises
+\* the error emits no code.  The labels behind it move iff the body shrank or the statement emits code now and did not
+\* in the previous pass (or vice versa) - that is SymbolAdder's discovery (LabelMoved, Repass).
+JumpStep(o, st, kind, pass) ==
   LET d == st.d
+      c == st.c
+  IN IF pass = 1 THEN [st EXCEPT !.c = [Emit(c, kind, FALSE) EXCEPT !.repass = TRUE]]
+     ELSE LET inrange == kind = "tjmp" /\ pass >= 3
+              errs    == ~inrange /\ ~c.repass
+              d1      == IF errs THEN WrJumpError(o, d, c.repass) ELSE d
+              moved   == (kind = "tjmp" /\ pass = 2) \/ (errs # (c.pos \in c.prevErr))
+              d2      == IF moved /\ ~d1.fatal THEN LabelMoved(o, d1, c.repass, pass) ELSE d1
+              c1      == IF errs THEN [c EXCEPT !.nowErr = @ \cup {c.pos}] ELSE Emit(c, kind, FALSE)
+          IN [d |-> d2, c |-> [c1 EXCEPT !.repass = @ \/ (moved /\ ~d1.fatal)]]
+
+LineStep(o, st0, ln, pass) ==
+  LET st == [st0 EXCEPT !.c.pos = @ + 1]
+      d == st.d
       c == st.c
   IN IF d.fatal THEN st
      ELSE IF c.rec # "none" \/ ~c.ifasm THEN st          \* swallowed by an open definition / skipped branch
@@ -113,6 +155,7 @@ LineStep(o, st, ln, pass) ==
             [] ln.k = "uerr"      -> [st EXCEPT !.d = UserERROR(o, d)]
             [] ln.k = "ufatal"    -> [st EXCEPT !.d = UserFATAL(o, d)]
             [] ln.k = "fwd"       -> [st EXCEPT !.c = [Emit(c, "fwd", FALSE) EXCEPT !.repass = @ \/ pass = 1]]
+            [] ln.k \in {"tjmp", "pjmp"} -> JumpStep(o, st, ln.k, pass)
             [] ln.k = "undef"     -> IF pass = 1 THEN [st EXCEPT !.c = [Emit(c, "undef", FALSE) EXCEPT !.repass = TRUE]]
                                      ELSE [st EXCEPT !.d = WrXErrorPos(o, d, NumSymbolUndef)]
             [] ln.k = "burstE"    -> [st EXCEPT !.d = IF ln.n <= 3 THEN Repeat(o, d, NumUnknownInstr, ln.n)
@@ -162,7 +205,8 @@ EndPassStep(o, st) ==
 RECURSIVE Fold(_, _, _, _, _)
 Fold(o, st, lines, i, pass) == IF i > Len(lines) THEN st ELSE Fold(o, LineStep(o, st, lines[i], pass), lines, i + 1, pass)
 
-RunPass(o, lines, pass, carry) == EndPassStep(o, Fold(o, Fresh(carry), lines, 1, pass))
+RunPassP(o, lines, pass, carry, prevErr) == EndPassStep(o, Fold(o, FreshP(carry, prevErr), lines, 1, pass))
+RunPass(o, lines, pass, carry) == RunPassP(o, lines, pass, carry, {})
 
 \* what the end of a pass leaves in the stale pointers (StaleUntilInitPass); FirstSaveState is nulled by AsmDefInit
 Residue(c) == [ifd |-> c.ifd, rec |-> IF c.rec = "none" THEN 0 ELSE 1, std |-> IF c.std > 0 THEN 1 ELSE 0,
@@ -170,27 +214,36 @@ Residue(c) == [ifd |-> c.ifd, rec |-> IF c.rec = "none" THEN 0 ELSE 1, std |-> I
 NoResidue == [ifd |-> 0, rec |-> 0, std |-> 0, sed |-> 0]
 
 \* the result of AssembleFile given the state of the last pass run, the number of passes and the channel totals
-FileResult(o, last, passes, chE, chW, chF) ==
+FileResult(o, last, passes, chE, chW, chF, discP) ==
   LET kept == ~last.d.fatal /\ last.d.err = 0 /\ o.codeout
   IN [assembled |-> TRUE, passes |-> passes, fatal |-> last.d.fatal,
+      disc |-> last.d.disc, discAll |-> discP + last.d.disc,   \* error lines written but discounted (-Y): last / all passes
       sumE |-> last.d.err, sumW |-> last.d.warn,              \* what the summary prints (the counters)
       emE |-> last.d.emE, emW |-> last.d.emW,                  \* really written in the last pass
       chanE |-> chE, chanW |-> chW, chanF |-> chF,             \* really written in all passes
       kept |-> kept, failed |-> last.d.fatal \/ last.d.err # 0,
       code |-> IF kept THEN last.c.code ELSE <<>>,
-      left |-> last.c.flags \cap Leaky, residue |-> Residue(last.c)]
+      left |-> (last.c.flags \cap Leaky) \cup JmpTok(last.d.jmp), residue |-> Residue(last.c)]
 
-NotAssembled == [assembled |-> FALSE, passes |-> 0, fatal |-> FALSE, sumE |-> 0, sumW |-> 0, emE |-> 0, emW |-> 0,
+NotAssembled == [assembled |-> FALSE, passes |-> 0, fatal |-> FALSE, disc |-> 0, discAll |-> 0,
+                 sumE |-> 0, sumW |-> 0, emE |-> 0, emW |-> 0,
                  chanE |-> 0, chanW |-> 0, chanF |-> 0, kept |-> FALSE, failed |-> FALSE, code |-> <<>>,
                  left |-> {}, residue |-> NoResidue]
 
-\* the pass loop.  In this alphabet Repass can only be set in pass 1, so two passes are the maximum.
-AsmFile(o, lines, carry) ==
-  LET p1 == RunPass(o, lines, 1, carry)
-  IN IF ~p1.d.fatal /\ p1.d.err = 0 /\ p1.c.repass
-     THEN LET p2 == RunPass(o, lines, 2, carry \cup (p1.c.flags \cap Leaky))
-          IN FileResult(o, p2, 2, p1.d.emE + p2.d.emE, p1.d.emW + p2.d.emW, p1.d.emF + p2.d.emF)
-     ELSE FileResult(o, p1, 1, p1.d.emE, p1.d.emW, p1.d.emF)
+\* the pass loop `do ... while (ErrorCount == 0 && Repass)`.  acc = what the finished passes wrote to the error
+\* channel.  MaxPass only bounds the model: in this alphabet every file settles after at most 4 passes
+\* (forward references: 2; a transient jump error discarded with -Y: 4).
+MaxPass == 6
+ZeroAcc == [e |-> 0, w |-> 0, f |-> 0, disc |-> 0]
+AddAcc(acc, d) == [e |-> acc.e + d.emE, w |-> acc.w + d.emW, f |-> acc.f + d.emF, disc |-> acc.disc + d.disc]
+Again(p, pass) == ~p.d.fatal /\ p.d.err = 0 /\ p.c.repass /\ pass < MaxPass
+RECURSIVE Passes(_, _, _, _, _, _)
+Passes(o, lines, pass, carry, prevErr, acc) ==
+  LET p == RunPassP(o, lines, pass, carry, prevErr)
+  IN IF Again(p, pass)
+     THEN Passes(o, lines, pass + 1, Handover(carry, p), p.c.nowErr, AddAcc(acc, p.d))
+     ELSE FileResult(o, p, pass, acc.e + p.d.emE, acc.w + p.d.emW, acc.f + p.d.emF, acc.disc)
+AsmFile(o, lines, carry) == Passes(o, lines, 1, carry, {}, ZeroAcc)
 
 \* main(): files in order; a fatal error ends the run; the rest is not assembled
 RECURSIVE Files(_, _, _, _)
@@ -198,7 +251,7 @@ Files(o, fs, i, carry) ==
   IF i > Len(fs) THEN <<>>
   ELSE LET r == AsmFile(o, fs[i], carry)
        IN IF r.fatal THEN <<r>> \o [j \in 1..(Len(fs) - i) |-> NotAssembled]
-          ELSE <<r>> \o Files(o, fs, i + 1, carry \cup r.left)
+          ELSE <<r>> \o Files(o, fs, i + 1, (carry \ JmpTokens) \cup r.left)
 
 StatusOf(rs) == IF \E i \in 1..Len(rs) : rs[i].fatal THEN 3
                 ELSE IF \E i \in 1..Len(rs) : rs[i].failed THEN 2 ELSE 0
@@ -207,14 +260,17 @@ Outcome(o, fs) == LET rs == Files(o, fs, 1, {}) IN [status |-> StatusOf(rs), fil
 
 ---------------------------------------------------------------------------
 \* What property C02 says, over the ghost tallies of what was really written (rs = results of a finished run)
-Reported(r) == r.chanE > 0 \/ r.chanF > 0
+\* An error LINE that reached the error channel counts - unless -Y discounted it, which the code (and the manual:
+\* "forget the error message when the address change has been detected") does only under -Y: C02_NoDiscardWithoutY.
+Reported(r) == r.chanE > r.discAll \/ r.chanF > 0
+C02_NoDiscardWithoutY(o, rs) == ~o.throw => \A i \in 1..Len(rs) : rs[i].discAll = 0
 C02_StatusZeroIffNoError(status, rs) == (status = 0) <=> (\A i \in 1..Len(rs) : ~Reported(rs[i]))
 C02_ZeroKeepsAll(o, status, rs) == (status = 0 /\ o.codeout) => \A i \in 1..Len(rs) : rs[i].kept
 C02_ErrorsDropCode(rs) == \A i \in 1..Len(rs) : Reported(rs[i]) => ~rs[i].kept
 C02_ErrorStatus(status, rs) == /\ (\E i \in 1..Len(rs) : rs[i].chanF > 0) <=> status = 3
                                /\ ((\E i \in 1..Len(rs) : Reported(rs[i])) /\ status # 3) => status = 2
 C02_SummaryAgrees(rs) == \A i \in 1..Len(rs) : (rs[i].assembled /\ ~rs[i].fatal) =>
-                             rs[i].sumE = rs[i].emE /\ rs[i].sumW = rs[i].emW
+                             rs[i].sumE + rs[i].disc = rs[i].emE /\ rs[i].sumW = rs[i].emW
 C02_WerrorLeavesNoWarnings(o, rs) == o.werror => \A i \in 1..Len(rs) : rs[i].chanW = 0
 
 \* Declarative reading of a program, written without the operators above (position arithmetic over the text):
@@ -232,7 +288,7 @@ DeclWarn(o, ln) == CASE ln.k = "warn" -> IF o.werror \/ o.suppw THEN 0 ELSE 1
                      [] ln.k = "burstU" -> IF o.werror THEN 0 ELSE ln.n
                      [] OTHER -> 0
 IsFatalLine(ln) == ln.k \in {"fatalI", "ufatal"}
-Plain(lines) == \A i \in 1..Len(lines) : lines[i].k \notin {"expect", "endexpect", "open", "use", "undef"}
+Plain(lines) == \A i \in 1..Len(lines) : lines[i].k \notin {"expect", "endexpect", "open", "use", "undef", "tjmp", "pjmp"}
 RECURSIVE SumTo(_, _, _)
 SumTo(f, lines, n) == IF n = 0 THEN 0 ELSE f[n] + SumTo(f, lines, n - 1)
 \* index of the first fatal line, or Len+1
